@@ -45,7 +45,7 @@ var instLayout = map[string]map[string][]layoutRow{
 	// SOPC: SSRC0[7:0] SSRC1[15:8] OP[22:16]
 	"decodeSOPC": {"Src0": {{"w0", 0, 7, ""}}, "Src1": {{"w0", 8, 15, ""}}},
 	// SOPP: SIMM16[15:0] OP[22:16]; s_waitcnt: VM_CNT simm16[3:0], EXP_CNT [6:4], LGKM_CNT [11:8]
-	"decodeSOPP": {"SImm16": {{"w0", 0, 15, ""}}, "VMCNT": {{"simm16", 0, 3, ""}}, "LKGMCNT": {{"simm16", 8, 11, " (Vega / CDNA3 manuals)"}, {"simm16", 8, 12, " (wording of the GCN3 manual; bit 12 is never set by an assembler)"}}},
+	"decodeSOPP": {"SImm16": {{"w0", 0, 15, ""}}, "VMCNT": {{"simm16", 0, 3, ""}, {"simm16", 14, 15, " (Vega / CDNA3: vmcnt[5:4])"}}, "LKGMCNT": {{"simm16", 8, 11, " (Vega / CDNA3 manuals)"}, {"simm16", 8, 12, " (wording of the GCN3 manual; bit 12 is never set by an assembler)"}}},
 	// VOP1: SRC0[8:0] OP[16:9] VDST[24:17]
 	"decodeVOP1": {"Src0": {{"w0", 0, 8, ""}}, "Dst": {{"w0", 17, 24, ""}}},
 	// VOP2: SRC0[8:0] VSRC1[16:9] VDST[24:17] OP[30:25]
@@ -80,7 +80,7 @@ var instLayout = map[string]map[string][]layoutRow{
 	// SMEM: SBASE[5:0] SDATA[12:6] GLC[16] IMM[17] OP[25:18] OFFSET[51:32] (20 bits; 21 signed bits on gfx9, not distinguished here)
 	"decodeSMEM": {
 		"Base": {{"w0", 0, 5, ""}}, "Data": {{"w0", 6, 12, ""}}, "GlobalLevelCoherent": {{"w0", 16, 16, ""}}, "Imm": {{"w0", 17, 17, ""}},
-		"Offset": {{"w1", 0, 19, ""}},
+		"Offset": {{"w1", 0, 19, ""}, {"w1", 20, 20, " (Vega / CDNA3: sign bit of the 21-bit offset)"}, {"w1", 0, 20, " (Vega / CDNA3: the signed 21-bit offset)"}},
 	},
 	// FLAT: (OFFSET[12:0] gfx9) GLC[16] SLC[17] OP[24:18] ADDR[39:32] DATA[47:40] (SADDR[54:48] gfx9) TFE[55] (gcn3) VDST[63:56]
 	"decodeFLAT": {
